@@ -456,6 +456,63 @@ def collinear_generic_fits(ctx):
             break
 
 
+def weighted_collinear_fits(ctx):
+    """the sources that carry weight lie exactly on a line (integer lattice direction), the sources off the line have
+    weight zero (in either list): the weighted configuration is degenerate and fit_general - directly and through
+    iter_linear_fit - must raise SingularMatrixError, whatever the unweighted point set looks like"""
+    from tweakwcs import linearfit
+    rng = ctx.rng
+    for _ in range(ctx.n(40, 500)):
+        n_on = rng.randint(3, 7)
+        n_off = rng.randint(1, 4)
+        dx, dy = rng.choice([(1, 0), (0, 1), (1, 1), (1, -1), (2, 1), (1, 3)])
+        ts = rng.sample(range(-12, 13), n_on)
+        x0, y0 = rng.randint(-20, 20), rng.randint(-20, 20)
+        on = [(float(x0 + t * dx), float(y0 + t * dy)) for t in ts]
+        off = []
+        while len(off) < n_off:
+            q = (float(rng.randint(-40, 40)), float(rng.randint(-40, 40)))
+            if (q[0] - x0) * dy - (q[1] - y0) * dx != 0:
+                off.append(q)
+        uv = on + off
+        order = list(range(len(uv)))
+        rng.shuffle(order)
+        uv = [uv[i] for i in order]
+        onl = [i < n_on for i in order]
+        xy = [(1.001 * u - 0.002 * v + 3.0, 0.003 * u + 0.999 * v - 2.0) for u, v in uv]
+        mode = rng.choice(['wxy', 'wuv', 'both', 'complementary'])
+        wxy = [float(rng.randint(1, 5)) for _ in uv]
+        wuv = [float(rng.randint(1, 5)) for _ in uv]
+        for i, o in enumerate(onl):
+            if o:
+                continue
+            if mode == 'wxy' or (mode == 'complementary' and i % 2 == 0):
+                wxy[i] = 0.0
+            elif mode == 'wuv' or mode == 'complementary':
+                wuv[i] = 0.0
+            else:
+                wxy[i] = wuv[i] = 0.0
+        args = {'wxy': (wxy, None), 'wuv': (None, wuv)}.get(mode, (wxy, wuv))
+        for entry in ('fit_general', 'iter_linear_fit'):
+            case = {'op': 'weighted-collinear', 'entry': entry, 'mode': mode, 'uv': uv, 'xy': xy,
+                    'wxy': args[0], 'wuv': args[1]}
+            ctx.case(case, nontrivial=True, branch='weighted-collinear:%s:%s' % (entry, mode))
+            a = [None if w is None else np.array(w) for w in args]
+            try:
+                if entry == 'fit_general':
+                    fit = linearfit.fit_general(np.array(xy), np.array(uv), a[0], a[1])
+                else:
+                    fit = linearfit.iter_linear_fit(np.array(xy), np.array(uv), a[0], a[1], fitgeom='general', nclip=0)
+            except linearfit.SingularMatrixError:
+                continue
+            except Exception as e:   # noqa
+                ctx.oracle_fail(case, {'what': 'unexpected exception for sources whose weighted part is collinear',
+                                       'got': '%s: %s' % (type(e).__name__, str(e)[:80])})
+                continue
+            ctx.oracle_fail(case, {'what': 'parameters returned although the sources that carry weight are exactly '
+                                           'collinear', 'matrix': np.asarray(fit['matrix'], dtype=float).tolist()})
+
+
 def weighted_degenerate_fits(ctx):
     """enough sources but too few with a positive effective weight (zeros in the image weights, in the
     reference weights, or complementary in both): a degenerate configuration the single-shot fitters must
@@ -577,6 +634,7 @@ def run(ctx):
     compare(ctx, outs, pending)
     degenerate_fits(ctx)
     collinear_generic_fits(ctx)
+    weighted_collinear_fits(ctx)
     weighted_degenerate_fits(ctx)
 
 
